@@ -44,24 +44,31 @@ Proof.
   apply silent_app; [repeat split|]. apply silent_app; [apply silent_written | exact IH].
 Qed.
 
-Lemma silent_lw cn can q : silent (snd (lw cn can q)).
-Proof. unfold lw. destruct can; cbn [snd]; [apply silent_flush | apply silent_nil]. Qed.
+Lemma silent_lw cn t alive q : silent (snd (fst (lw cn t alive q))).
+Proof.
+  unfold lw. destruct alive; [|apply silent_nil]. destruct t; cbn [fst snd]; [apply silent_flush | apply silent_nil|].
+  destruct q; cbn [fst snd]; [apply silent_nil | repeat split].
+Qed.
 
 (* a hand-over: the [Handed] event, then nothing the checker sees *)
-Lemma pq_events cn can q x : exists tl, snd (pq cn can q x) = Handed cn (q_pkt x) :: tl /\ silent tl.
+Lemma pq_events cn t alive q x : exists tl, snd (fst (pq cn t alive q x)) = Handed cn (q_pkt x) :: tl /\ silent tl.
 Proof.
-  unfold pq. pose proof (silent_lw cn can (q ++ [x])) as H. destruct (lw cn can (q ++ [x])) as [q' ev].
+  unfold pq. pose proof (silent_lw cn t alive (q ++ [x])) as H. destruct (lw cn t alive (q ++ [x])) as [[q' ev] a].
   exists ev. split; [reflexivity | exact H].
 Qed.
 
 Lemma send_events s x : exists tl, snd (send s x) = Handed (conn s) (q_pkt x) :: tl /\ silent tl.
 Proof.
-  unfold send. destruct (pq_events (conn s) (can_write s) (outq s) x) as (tl & E & H).
-  destruct (pq (conn s) (can_write s) (outq s) x) as [q' ev]. cbn [snd] in *. exists tl. split; assumption.
+  unfold send. destruct (sock s); [|exists []; split; [reflexivity | apply silent_nil]].
+  destruct (pq_events (conn s) (tm s) true (outq s) x) as (tl & E & H).
+  destruct (pq (conn s) (tm s) true (outq s) x) as [[q' ev] a]. cbn [fst snd] in *. exists tl. split; assumption.
 Qed.
 
 Lemma send_state s x : inm (fst (send s x)) = inm s /\ first (fst (send s x)) = first s.
-Proof. unfold send. destruct (pq (conn s) (can_write s) (outq s) x). split; reflexivity. Qed.
+Proof.
+  unfold send. destruct (sock s); [|split; reflexivity].
+  destruct (pq (conn s) (tm s) true (outq s) x) as [[q' ev] a]. destruct a; split; reflexivity.
+Qed.
 
 (* hand-overs of packets that are not replies are silent altogether *)
 Definition not_reply (p : pkt) : Prop := match p with PPuback _ | PPubrec _ | PPubcomp _ => False | _ => True end.
@@ -72,56 +79,59 @@ Proof.
   destruct p; try contradiction; cbn [inbound_ev]; rewrite A1; repeat split; assumption.
 Qed.
 
-Lemma silent_pq cn can q x : not_reply (q_pkt x) -> silent (snd (pq cn can q x)).
-Proof. intros Hp. destruct (pq_events cn can q x) as (tl & -> & H). apply silent_handed; assumption. Qed.
+Lemma silent_pq cn t alive q x : not_reply (q_pkt x) -> silent (snd (fst (pq cn t alive q x))).
+Proof. intros Hp. destruct (pq_events cn t alive q x) as (tl & -> & H). apply silent_handed; assumption. Qed.
 
-Lemma silent_connack_loop cn can : forall l q, silent (snd (connack_loop cn can q l)).
+Lemma silent_connack_loop cn t : forall l q, silent (snd (fst (connack_loop cn t q l))).
 Proof.
   induction l as [|m l IH]; intros q; cbn [connack_loop]; [apply silent_nil|].
-  assert (Hskip : silent (snd (let (q1, ev1) := lw cn can q in
-                               let '(r, q2, ev2) := connack_loop cn can q1 l in (m :: r, q2, ev1 ++ ev2)))).
-  { pose proof (silent_lw cn can q) as H1. destruct (lw cn can q) as [q1 ev1].
-    specialize (IH q1). destruct (connack_loop cn can q1 l) as [[r q2] ev2]. cbn [snd] in *.
+  assert (Hskip : silent (snd (fst (let '(q1, ev1, a1) := lw cn t true q in
+                               if a1 then let '(r, q2, ev2, a2) := connack_loop cn t q1 l in (m :: r, q2, ev1 ++ ev2, a2)
+                               else (m :: l, q1, ev1, false))))).
+  { pose proof (silent_lw cn t true q) as H1. destruct (lw cn t true q) as [[q1 ev1] a1]. destruct a1; [|exact H1].
+    specialize (IH q1). destruct (connack_loop cn t q1 l) as [[[r q2] ev2] a2]. cbn [fst snd] in *.
     apply silent_app; assumption. }
   assert (Hsend : forall x m', not_reply (q_pkt x) ->
-            silent (snd (let (q1, ev1) := pq cn can q x in
-                         let '(r, q2, ev2) := connack_loop cn can q1 l in (m' :: r, q2, ev1 ++ ev2)))).
-  { intros x m' Hx. pose proof (silent_pq cn can q x Hx) as H1. destruct (pq cn can q x) as [q1 ev1].
-    specialize (IH q1). destruct (connack_loop cn can q1 l) as [[r q2] ev2]. cbn [snd] in *.
+            silent (snd (fst (let '(q1, ev1, a1) := pq cn t true q x in
+                         if a1 then let '(r, q2, ev2, a2) := connack_loop cn t q1 l in (m' :: r, q2, ev1 ++ ev2, a2)
+                         else (m' :: l, q1, ev1, false))))).
+  { intros x m' Hx. pose proof (silent_pq cn t true q x Hx) as H1. destruct (pq cn t true q x) as [[q1 ev1] a1].
+    destruct a1; [|exact H1].
+    specialize (IH q1). destruct (connack_loop cn t q1 l) as [[[r q2] ev2] a2]. cbn [fst snd] in *.
     apply silent_app; assumption. }
   destruct (o_st m); try exact Hskip.
-  - apply Hsend. exact I.
+  - apply Hsend; exact I.
   - destruct (o_qos m =? 2); [apply Hsend; exact I | exact Hskip].
-  - pose proof (silent_lw cn can q) as H1. destruct (lw cn can q) as [q1 ev1]. exact H1.
+  - pose proof (silent_lw cn t true q) as H1. destruct (lw cn t true q) as [[q1 ev1] a1]. exact H1.
 Qed.
 
-Lemma silent_update_inflight c cn can : forall l infl q, silent (snd (update_inflight c cn can infl q l)).
+Lemma silent_update_inflight c cn t : forall l infl q, silent (snd (fst (update_inflight c cn t infl q l))).
 Proof.
   induction l as [|m l IH]; intros infl q; cbn [update_inflight]; [apply silent_nil|].
   destruct (infl <? c_max c); [|apply silent_nil].
   destruct (is_queued m).
-  - pose proof (silent_pq cn can q (mkQ (pub_pkt m) false) I) as H1.
-    destruct (pq cn can q (mkQ (pub_pkt m) false)) as [q1 ev1].
-    specialize (IH (infl + 1) q1). destruct (update_inflight c cn can (infl + 1) q1 l) as [[[r n] q2] ev2].
-    cbn [snd] in *. apply silent_app; assumption.
-  - specialize (IH infl q). destruct (update_inflight c cn can infl q l) as [[[r n] q2] ev2]. exact IH.
+  - pose proof (silent_pq cn t true q (mkQ (pub_pkt m) false) I) as H1.
+    destruct (pq cn t true q (mkQ (pub_pkt m) false)) as [[q1 ev1] a1]. destruct a1; [|exact H1].
+    specialize (IH (infl + 1) q1). destruct (update_inflight c cn t (infl + 1) q1 l) as [[[[r n] q2] ev2] a2].
+    cbn [fst snd] in *. apply silent_app; assumption.
+  - specialize (IH infl q). destruct (update_inflight c cn t infl q l) as [[[[r n] q2] ev2] a2]. exact IH.
 Qed.
 
 Lemma on_publish_events c s m : exists tl,
   snd (do_on_publish c s m) = CbPublish (o_mid m) (o_tag m) :: Published (o_tag m) :: tl /\ silent tl.
 Proof.
   unfold do_on_publish. destruct (c_max c >? 0).
-  - pose proof (silent_update_inflight c (conn s) (can_write s) (remove_mid (o_mid m) (out s)) (inflight s - 1) (outq s)) as H.
-    destruct (update_inflight c (conn s) (can_write s) (inflight s - 1) (outq s) (remove_mid (o_mid m) (out s)))
-      as [[[o' n] q'] ev]. cbn [snd] in *. exists ev. split; [reflexivity | exact H].
+  - pose proof (silent_update_inflight c (conn s) (tm s) (remove_mid (o_mid m) (out s)) (inflight s - 1) (outq s)) as H.
+    destruct (update_inflight c (conn s) (tm s) (inflight s - 1) (outq s) (remove_mid (o_mid m) (out s)))
+      as [[[[o' n] q'] ev] a]. cbn [fst snd] in *. exists ev. split; [reflexivity | exact H].
   - exists []. split; [reflexivity | apply silent_nil].
 Qed.
 
 Lemma on_publish_inm c s m : inm (fst (do_on_publish c s m)) = inm s /\ first (fst (do_on_publish c s m)) = first s.
 Proof.
   unfold do_on_publish. destruct (c_max c >? 0).
-  - destruct (update_inflight c (conn s) (can_write s) (inflight s - 1) (outq s) (remove_mid (o_mid m) (out s)))
-      as [[[o' n] q'] ev]. split; reflexivity.
+  - destruct (update_inflight c (conn s) (tm s) (inflight s - 1) (outq s) (remove_mid (o_mid m) (out s)))
+      as [[[[o' n] q'] ev] a]. destruct a; split; reflexivity.
   - split; reflexivity.
 Qed.
 
@@ -175,9 +185,9 @@ Proof.
     assert (Hret : forall s' tag mid rc, inm s' = inm s -> first s' = first s ->
               R03 s' (k03_op c k [Ret tag mid q rc])).
     { intros s' tag mid rc E1 E2. rewrite op_silent by (repeat split). apply R03_mk; congruence. }
-    assert (Hsend : forall s1 x tag mid rc, inm s1 = inm s -> first s1 = first s -> not_reply (q_pkt x) ->
-              R03 (fst (let (s2, ev) := send s1 x in (s2, ev ++ [Ret tag mid q rc])))
-                  (k03_op c k (snd (let (s2, ev) := send s1 x in (s2, ev ++ [Ret tag mid q rc]))))).
+    assert (Hsend : forall s1 x tag mid (rc : sess -> Z), inm s1 = inm s -> first s1 = first s -> not_reply (q_pkt x) ->
+              R03 (fst (let (s2, ev) := send s1 x in (s2, ev ++ [Ret tag mid q (rc s2)])))
+                  (k03_op c k (snd (let (s2, ev) := send s1 x in (s2, ev ++ [Ret tag mid q (rc s2)]))))).
     { intros s1 x tag mid rc E1 E2 Hx. destruct (send_events s1 x) as (tl & E & Hs).
       destruct (send_state s1 x) as [E3 E4]. destruct (send s1 x) as [s2 ev]. cbn [fst snd] in *. subst ev.
       rewrite op_silent.
@@ -185,11 +195,18 @@ Proof.
       - apply silent_app; [apply silent_handed; assumption | repeat split]. }
     unfold do_publish. cbv zeta.
     destruct (q =? 0).
-    { destruct (sock s); [apply Hsend | apply Hret]; try reflexivity; try exact I. }
+    { destruct (sock s); [apply (Hsend _ _ _ _ (fun s2 => if sock s2 then 0 else 7)) | apply Hret]; try reflexivity; try exact I. }
     destruct ((c_maxq c >? 0) && (Z.of_nat (length (out s)) >=? c_maxq c)); [apply Hret; reflexivity|].
     destruct (has_mid (mid_next (last_mid s)) (out s)); [apply Hret; reflexivity|].
-    destruct (window_free c (inflight s)); [destruct (sock s)|];
-      [apply Hsend | apply Hret | apply Hret]; try reflexivity; try exact I.
+    destruct (window_free c (inflight s)); [destruct (sock s)|]; [| apply Hret; reflexivity | apply Hret; reflexivity].
+    (* the PUBLISH is handed over; if the write fails hard the message leaves the window again *)
+    match goal with |- context [send ?s0 ?x0] =>
+      destruct (send_events s0 x0) as (tl & E & Hs); destruct (send_state s0 x0) as [E3 E4];
+      destruct (send s0 x0) as [s2 ev] end.
+    cbn [fst snd] in *. subst ev. cbn [inm first with_out] in E3, E4.
+    destruct (sock s2); cbn [fst snd]; (rewrite op_silent;
+      [apply R03_mk; cbn [inm first with_out]; congruence
+      | apply silent_app; [apply silent_handed; [exact I | assumption] | repeat split]]).
   - (* reconnect *)
     unfold do_reconnect.
     destruct (reset_out_list c (clean_now c s) 0 (out s)) as [o n].
@@ -209,9 +226,9 @@ Proof.
     destruct p as [rc|mid|mid|mid|mid|q mid tag].
     + (* CONNACK *)
       destruct (rc =? 0).
-      * pose proof (silent_connack_loop (conn s) (can_write s) (out s) (outq s)) as Hn.
-        destruct (connack_loop (conn s) (can_write s) (outq s) (out s)) as [[o q'] ev]. cbn [fst snd] in *.
-        rewrite (op_connack c k rc ev Hn). apply R03_mk; [assumption | exact Hp | reflexivity].
+      * pose proof (silent_connack_loop (conn s) (tm s) (out s) (outq s)) as Hn.
+        destruct (connack_loop (conn s) (tm s) (outq s) (out s)) as [[[o q'] ev] a]. cbn [fst snd] in *.
+        rewrite (op_connack c k rc ev Hn). destruct a; apply R03_mk; [assumption | exact Hp | reflexivity | assumption | exact Hp | reflexivity].
       * cbn [fst snd]. rewrite (op_connack c k rc [SockLost]) by (repeat split).
         apply R03_mk; [assumption | exact Hp | reflexivity].
     + (* PUBACK *)
@@ -324,11 +341,15 @@ Proof.
       cbn [fst snd]. rewrite op_silent by apply silent_nil. apply R03_mk; assumption.
     + cbn [fst snd]. rewrite op_silent by apply silent_nil. apply R03_mk; assumption.
   - (* the transport blocks / accepts again *)
-    unfold do_block. destruct (sock s); [|cbn [fst snd]; rewrite op_silent by apply silent_nil; apply R03_mk; assumption].
-    destruct b; cbn [fst snd lw].
-    + rewrite op_silent by (repeat split). apply R03_mk; try assumption; reflexivity.
-    + rewrite op_silent by (apply silent_cons; [repeat split | apply silent_flush]).
-      apply R03_mk; try assumption; reflexivity.
+    unfold do_transport. destruct (sock s); [|cbn [fst snd]; rewrite op_silent by apply silent_nil; apply R03_mk; assumption].
+    assert (Hgo : forall m', R03 (fst (let '(q', ev, a) := lw (conn s) m' true (outq s) in (settle (with_tm s m') q' a, Blk (refuses m') :: ev)))
+                     (k03_op c k (snd (let '(q', ev, a) := lw (conn s) m' true (outq s) in (settle (with_tm s m') q' a, Blk (refuses m') :: ev))))).
+    { intros m'. pose proof (silent_lw (conn s) m' true (outq s)) as Hl.
+      destruct (lw (conn s) m' true (outq s)) as [[q' ev] a]. cbn [fst snd] in *.
+      rewrite op_silent by (apply silent_cons; [repeat split | exact Hl]).
+      destruct a; apply R03_mk; try assumption; reflexivity. }
+    destruct b; [apply Hgo | | apply Hgo].
+    cbn [fst snd]. rewrite op_silent by (repeat split). apply R03_mk; try assumption; reflexivity.
 Qed.
 
 Lemma run_R03 c : forall ops s k, R03 s k ->
